@@ -55,7 +55,7 @@ func (c17) New() interface{} { return &C17Script{} }
 func (c17) Info() core.Info {
 	return core.Info{
 		Runs: map[string]int{"quick": 1500000, "thorough": 100000000},
-		Rule: "Each run is one scripted caller history (<=60 operations: WritePacket of payload-only / AF+payload (AF length 0..183) / AF-only / AF-overrunning packets with or without unit start, Reset, overwrite of the caller's packet buffer after hand-over, scribbling on returned Bytes()/Packets() slices) on a real accumulator with a scripted predicate (threshold, never, always, error window, flapping); Bytes() and Packets() are compared with a 3-state reference model after every operation and a fresh accumulator runs in lock-step after every Reset; plus a complete sweep of all histories of length <=6 over an 8-letter alphabet with a threshold predicate. Non-trivial = at least one reach probe fired.",
+		Rule: "Each run is one scripted caller history (<=60 operations: WritePacket of payload-only / AF+payload (AF length 0..183) / AF-only / AF-overrunning packets with or without unit start, Reset, overwrite of the caller's packet buffer after hand-over, scribbling on returned Bytes()/Packets() slices) on a real accumulator with a scripted predicate (threshold, never, always, error window, flapping); Bytes() and Packets() are compared with a 3-state reference model after every operation and a fresh accumulator runs in lock-step after every Reset; plus a complete sweep of all histories of length <=6 over an 8-letter alphabet with a threshold predicate. Non-trivial = at least one reach probe fired. Added in waves 20-22: adaptation_field_length 184..255 for overrunning packets; the caller appends a packet of its own to the list Packets() returned; a predicate that resets its own accumulator and answers not-done (afterwards nothing is held, a continuation packet is refused, the next unit start begins a unit).",
 		Real: []string{"packet.NewAccumulator", "(*accumulator).WritePacket/Bytes/Packets/Reset", "packet.Payload", "packet.PayloadUnitStartIndicator"},
 		Stub: []string{"caller (scripted operation history, buffer reuse)", "predicate (scripted, pure in the bytes)", "packet source"},
 		Assumptions: []string{
@@ -773,6 +773,68 @@ func (c17) Exec(script interface{}, c *core.Ctx) {
 				return
 			}
 		}
+	}
+	if len(s.Ops)%4 == 1 && !c.Failed() {
+		c17SelfReset(c, len(s.Ops)%3+1)
+	}
+}
+
+// c17SelfReset: a predicate that gives a unit up by resetting its own accumulator (at its
+// at-th evaluation) and answering "not done". A reset is a reset wherever it is called from:
+// afterwards the accumulator holds nothing, refuses a continuation packet and starts over
+// with the next unit start.
+func c17SelfReset(c *core.Ctx, at int) {
+	var acc packet.Accumulator
+	evals := 0
+	acc = packet.NewAccumulator(func(b []byte) (bool, error) {
+		evals++
+		if evals == at {
+			acc.Reset()
+			return false, nil
+		}
+		return len(b) >= 5000, nil
+	})
+	mk := func(ser int, pusi bool) *packet.Packet {
+		pk, _, _ := c17Packet(C17Op{Op: "write", Class: "pay", PUSI: pusi, Ser: 7000 + ser})
+		return &pk
+	}
+	okc := c.Call("Accumulator.WritePacket (predicate resets its accumulator)", func() {
+		acc.WritePacket(mk(0, true))
+		for k := 1; k < at; k++ {
+			acc.WritePacket(mk(k, false))
+		}
+	})
+	if !okc {
+		return
+	}
+	c.Probe("predicate_reset_its_own_accumulator")
+	var b []byte
+	var ps []*packet.Packet
+	var werr error
+	if !c.Call("Accumulator.Bytes/Packets/WritePacket (after the predicate's reset)", func() {
+		b, ps = acc.Bytes(), acc.Packets()
+		_, werr = acc.WritePacket(mk(50, false))
+	}) {
+		return
+	}
+	if len(b) != 0 || len(ps) != 0 {
+		c.Fail("reset_like_new", "self_reset:accumulator_not_empty_after_reset_from_the_predicate", fmt.Sprint(len(b), " bytes ", len(ps), " packets"), "nothing")
+		return
+	}
+	if werr == nil {
+		c.Fail("reset_like_new", "self_reset:continuation_packet_accepted_after_reset_from_the_predicate", nil, "an error (no unit start yet)")
+		return
+	}
+	start := mk(60, true)
+	pay, _ := packet.Payload(start)
+	if !c.Call("Accumulator.WritePacket (unit start after the predicate's reset)", func() {
+		_, werr = acc.WritePacket(start)
+		b = acc.Bytes()
+	}) {
+		return
+	}
+	if werr != nil || !bytes.Equal(b, pay) {
+		c.Fail("reset_like_new", "self_reset:unit_start_after_reset_from_the_predicate", fmt.Sprint(len(b), werr), fmt.Sprint(len(pay), nil))
 	}
 }
 
